@@ -50,6 +50,14 @@ class C15(InterpProp):
                 if evented:
                     t = rnd.choice(evented)
                     t.action = ((t.action + '\n') if t.action else '') + "notify('event sent', event=event)"
+            if rnd.random() < 0.3:
+                # parameters that compare equal and are not the same (1 and True, 0 and False): what is delivered is what
+                # was sent
+                for o in [sc.state_for(s) for s in sc.states] + list(sc.transitions):
+                    for attr in ('on_entry', 'on_exit', 'action'):
+                        code = getattr(o, attr, None)
+                        if code and 'send(' in code and rnd.random() < 0.5:
+                            setattr(o, attr, code.replace('b=True', 'b=1').replace('b=False', 'b=0').replace('v=x,', 'v=(x > 0),'))
             charts.append(sc)
             encs.append(ChartEnc(sc))
         ops = [['create', i, False, [], 0] for i in range(n)]
@@ -140,8 +148,9 @@ class C15(InterpProp):
         payload = {'kind': 'interp', 'charts': [e.json for e in encs], 'ops': ops, 'record_deliveries': True}
         if raiser:
             payload['raiser'] = True
-        if rnd.random() < 0.2:
-            # the callables are bound methods of objects nothing else refers to
+        if rnd.random() < 0.25:
+            # the callables are bound methods of objects nothing else refers to, or callable objects with attributes
+            # of their own
             payload['method_targets'] = True
         return Case(payload, {'charts': charts}, model_ok=all(e.supported for e in encs) and not detacher and not mutator and not raiser and not real)
 
